@@ -614,7 +614,6 @@ func (w *world) runH2Raw(cp *connPlan, px *rig.Proxy) {
 	q := &evQueue{}
 	q.cond = sync.NewCond(&q.mu)
 	go p.WaitFor(0, 24*time.Hour, func(e h2peer.Event) bool { q.push(e); return e.EOF })
-	go rc.collect(q)
 	if cp.window == 0 {
 		cp.window = 65535
 	}
@@ -622,6 +621,9 @@ func (w *world) runH2Raw(cp *connPlan, px *rig.Proxy) {
 		w.failAll(cp, 0, "preface: "+err.Error())
 		return
 	}
+	// the collector acknowledges the server's SETTINGS, which may arrive before
+	// we have written anything: it must not write ahead of the client preface
+	go rc.collect(q)
 	// wait for the server's SETTINGS (its initial stream window applies to what we send)
 	rc.mu.Lock()
 	t := time.AfterFunc(30*time.Second, func() { rc.mu.Lock(); rc.cond.Broadcast(); rc.mu.Unlock() })
